@@ -61,6 +61,7 @@ type Exec struct {
 	closureID int64
 	global0   map[types.Object]*Term
 	notes     []string
+	scopes    []*frameScope
 	retPos    []token.Pos
 	depth     int
 }
@@ -226,6 +227,10 @@ func (x *Exec) run() {
 		st.assume(env.evalBool(r.E))
 	}
 	x.entry.pc = append([]*Term(nil), st.pc...)
+	if x.fc.HasAssigns {
+		fenv := x.entryEnv(x.entry, x.entry)
+		x.scopes = append(x.scopes, &frameScope{label: "", targets: x.assignTargets(fenv, x.fc.Assigns), src: "assigns " + assignsText(x.fc)})
+	}
 	// vacuity probe
 	x.obls = append(x.obls, &Obligation{Name: x.key + "#vacuity", Func: x.key, Kind: "vacuity",
 		Hyps: append([]*Term(nil), st.pc...), Goal: tFalse, X: x, ExpectSat: true})
@@ -342,6 +347,17 @@ func (x *Exec) doReturn(st *State, vals []Val, pos token.Pos) {
 	}
 }
 
+// cellsEqual: forall r. cond(r) => h1[r] == h0[r], stated pointwise for
+// element heaps (so that no array extensionality is needed).
+func (x *Exec) cellsEqual(hn string, h1, h0 *Term, k BoundVar, kt, cond *Term) *Term {
+	if strings.HasPrefix(hn, "H_") {
+		j := BoundVar{Name: x.freshBound("j"), Sort: SInt}
+		jt := mk(j.Name, SInt)
+		return Forall([]BoundVar{k, j}, Implies(cond, Eq(Select(Select(h1, kt), jt), Select(Select(h0, kt), jt))))
+	}
+	return Forall([]BoundVar{k}, Implies(cond, Eq(Select(h1, kt), Select(h0, kt))))
+}
+
 // retOrdinal: ordinal of the return statement at pos in source order
 // (the implicit return at the closing brace is the last one).
 func (x *Exec) retOrdinal(pos token.Pos) int {
@@ -368,41 +384,11 @@ func (x *Exec) retOrdinal(pos token.Pos) int {
 // frameObligation: every pre-existing location outside the assigns set is
 // unchanged, and no symbolic global is written.
 func (x *Exec) frameObligation(st *State, label string, pos token.Pos) {
+	// heap cells are checked store by store (recordWrite); what remains at
+	// a return is that no symbolic package-level variable was written.
 	env := x.entryEnv(x.entry, x.entry)
 	allowed := x.assignTargets(env, x.fc.Assigns)
 	var goals []*Term
-	for _, hn := range sortedKeys(x.heap0) {
-		h0 := x.heap0[hn]
-		h1, ok := st.heaps[hn]
-		if !ok || h1 == h0 {
-			continue
-		}
-		k := BoundVar{Name: x.freshBound("r"), Sort: SInt}
-		kt := mk(k.Name, SInt)
-		conds := []*Term{Le(IntLit(0), kt), Lt(kt, x.entry0Alloc())}
-		var fieldGoals []*Term
-		for _, a := range allowed {
-			if a.heap != hn {
-				continue
-			}
-			if a.field < 0 {
-				conds = append(conds, Not(Eq(kt, a.key)))
-			} else {
-				// only one field of *key may change
-				conds = append(conds, Not(Eq(kt, a.key)))
-				var same []*Term
-				ov, nv := Select(h0, a.key), Select(h1, a.key)
-				for j := range a.ty.Struct.Fields {
-					if !a.fieldSet[j] {
-						same = append(same, Eq(x.structGet(nv, a.ty, j), x.structGet(ov, a.ty, j)))
-					}
-				}
-				fieldGoals = append(fieldGoals, And(same...))
-			}
-		}
-		goals = append(goals, Forall([]BoundVar{k}, Implies(And(conds...), Eq(Select(h1, kt), Select(h0, kt)))))
-		goals = append(goals, fieldGoals...)
-	}
 	for obj, g0 := range x.global0 {
 		if g1, ok := st.globals[obj]; ok && g1 != g0 {
 			permitted := false
@@ -416,7 +402,67 @@ func (x *Exec) frameObligation(st *State, label string, pos token.Pos) {
 			}
 		}
 	}
-	x.oblige(st, "frame", label, And(goals...), pos, "assigns "+assignsText(x.fc))
+	x.oblige(st, "frame", "globals@"+label, And(goals...), pos, "assigns "+assignsText(x.fc))
+}
+
+type frameScope struct {
+	label   string
+	targets []assignTarget
+	src     string
+}
+
+// recordWrite: a store to cell key of heap hn. For every active frame scope
+// (the function's assigns clause, enclosing loops with a modifies clause)
+// the cell must have been allocated by this function, or be listed.
+func (x *Exec) recordWrite(st *State, hn string, key *Term, newCell, oldCell *Term, cellTy *Ty, n ast.Node) {
+	if len(x.scopes) == 0 {
+		return
+	}
+	if _, _, exact := st.exactAlloc(key); exact {
+		return // allocated by this function on this path
+	}
+	pos := token.NoPos
+	if n != nil {
+		pos = n.Pos()
+	}
+	for _, sc := range x.scopes {
+		alts := []*Term{Ge(key, x.entry0Alloc())}
+		for _, t := range sc.targets {
+			if t.heap != hn || t.global != nil {
+				continue
+			}
+			if t.field < 0 {
+				alts = append(alts, Eq(key, t.key))
+				continue
+			}
+			if newCell != nil && oldCell != nil && cellTy != nil {
+				same := []*Term{Eq(key, t.key)}
+				for j := range cellTy.Struct.Fields {
+					if !t.fieldSet[j] {
+						same = append(same, Eq(x.structGet(newCell, cellTy, j), x.structGet(oldCell, cellTy, j)))
+					}
+				}
+				alts = append(alts, And(same...))
+			}
+		}
+		goal := Or(alts...)
+		if isLit(goal, "true") {
+			continue
+		}
+		lab := fmt.Sprintf("%sw%d", sc.label, x.nextOrd("frame:"+sc.label))
+		x.oblige(st, "frame", lab, goal, pos, sc.src)
+	}
+}
+
+// pushLoopScope activates a loop's modifies clause for the stores in its body.
+func (x *Exec) pushLoopScope(lc *LoopContract, ord int, pre *State, pos token.Pos) func() {
+	if !lc.HasMod {
+		return func() {}
+	}
+	env := x.invEnv(pre, pos, nil)
+	sc := &frameScope{label: fmt.Sprintf("loop%d:", ord), targets: x.assignTargets(env, lc.Modifies), src: "loop modifies"}
+	x.scopes = append(x.scopes, sc)
+	return func() { x.scopes = x.scopes[:len(x.scopes)-1] }
 }
 
 func assignsText(fc *FuncContract) string {
